@@ -2168,6 +2168,13 @@ out:
 		case *kmsg.MessageV1:
 			innerMessage.Offset += base
 			innerMessage.Attributes |= int8(compression)
+			// KIP-32: with LogAppendTime the broker stamps only the
+			// wrapper; inner messages take the wrapper's timestamp
+			// and timestamp type.
+			if message.Attributes&0b0000_1000 != 0 {
+				innerMessage.Timestamp = message.Timestamp
+				innerMessage.Attributes |= 0b0000_1000
+			}
 			if !o.processV1Message(fp, innerMessage) {
 				return i, uncompressedBytes
 			}
